@@ -13,7 +13,7 @@ warnings.filterwarnings("ignore")
 
 THEOREMS = ["Yaw.C16.random_sizes", "Yaw.C16.random_full_chunks", "Yaw.C16.reseed_history_free",
             "Yaw.C16.window_of_monotone", "Yaw.C16.joint_attributes", "Yaw.C16.glue_pinned", "Yaw.C16.seed_invariant",
-            "Yaw.C16.reproducible_after_any_use", "Yaw.C16.flags", "Yaw.C16.reseedTo_fresh",
+            "Yaw.C16.reproducible_after_any_use", "Yaw.C16.flags", "Yaw.C16.reseedTo_fresh", "Yaw.C16.data_size_spec", "Yaw.C16.joint_draw_in_range", "Yaw.C16.data_size_at_init",
             "Yaw.C16Box.cyl_roundtrip", "Yaw.C16Box.affine_mem", "Yaw.C16Box.box_window", "Yaw.C16Box.preimage_box",
             "Yaw.C16Box.equal_area"]
 RULE = ("BoxRandoms over windows incl. both poles, the full sphere and thin strips x requested sizes around multiples "
@@ -29,7 +29,7 @@ def run(prop, tier, seed, replay):
     from yaw.catalog.readers import RandomReader
     from yaw.randoms import BoxRandoms
 
-    ck = Check(prop, tier, seed, kernels=["k_reader", "k_randoms", "k_boxrandoms"], theorems=THEOREMS,
+    ck = Check(prop, tier, seed, kernels=["k_reader", "k_randoms", "k_boxrandoms", "k_datasize"], theorems=THEOREMS,
                lean_modules=["YawVerif.Props.C16", "YawVerif.Props.C16Box"], rule=RULE,
                assumptions=["numpy Generator.uniform / integers are uniform and reproducible from their seed",
                             "np.arcsin / np.sin are monotone to within 1 ulp"])
@@ -181,6 +181,23 @@ def run(prop, tier, seed, replay):
             ck.extra["uniformity_chi2_79dof"] = chi2
             if chi2 > 160:          # p < 1e-7 for 79 dof
                 ck.add_violation(f"random points are not uniform in area (chi2={chi2:.1f} for 79 dof, fixed seed)", {"seed": 424242})
+            # ---- attribute samples of every combination of presence and length: accepted with their common size, or refused
+            for nw_, nz_ in ((None, None), (5, None), (None, 7), (5, 5), (5, 7), (7, 5), (1, 1), (0, 0)):
+                kw_ = {}
+                if nw_ is not None:
+                    kw_["weights"] = np.arange(nw_, dtype=float)
+                if nz_ is not None:
+                    kw_["redshifts"] = np.arange(nz_, dtype=float) / 10
+                try:
+                    impl = ("size", int(BoxRandoms(0, 10, 0, 10, seed=1, **kw_).data_size))
+                except ValueError:
+                    impl = ("raise", None)
+                spec = (("size", -1) if nw_ is None and nz_ is None else ("size", nz_) if nw_ is None else ("size", nw_) if nz_ is None
+                        else (("size", nw_) if nw_ == nz_ else ("raise", None)))
+                ck.case(None, ("datasize", nw_, nz_))
+                if impl != spec:
+                    ck.add_violation(f"generator with {nw_} weights and {nz_} redshifts to draw from: {impl}, documented: {spec}",
+                                     {"num_weights": nw_, "num_redshifts": nz_})
             # ---- explicit re-seeding: ONE generator object run through several seeds (0 included) gives, for each seed, the
             #      points of a fresh generator with that seed
             for win in windows[:3]:
